@@ -79,6 +79,12 @@ def gen_scenario(rng, tier, multi):
             d = {'type': 'simple', 'pats': [pat], 'tag': rng.choice(['t1', 't2', 'q1', None]),
                  'store': True}
             g = re.compile(pat).groups
+            if rng.random() < 0.2:
+                # a LIST of patterns with different numbers of groups: the first that matches a
+                # line decides what is captured
+                d['pats'] = [rng.choice([r'(\d+)$', r'zz(\w+)', r'(t\d) (\S+) (\S+)', r'[a-c]$']),
+                             pat] + ([rng.choice(PATS)] if rng.random() < 0.4 else [])
+                g = 0
             if g and rng.random() < 0.6:
                 names = rng.sample(gen.FIELD_NAMES, g)
                 as_dict = rng.random() < 0.6
